@@ -24,14 +24,20 @@ from harness.common.num import q, unq
 PID = "C19"
 LEVEL = "proof"
 REQUIRED_THEOREMS = [
-    "basis_orthonormal", "basis_right_handed", "basis_is_normalised_jacobian", "metric_eq_jacobian_gram",
-    "bipolar_basis_orthonormal", "bisph_basis_orthonormal", "order_consistent",
+    "basis_orthonormal", "basis_right_handed", "basisOp_handedness", "basis_is_normalised_jacobian",
+    "metric_eq_jacobian_gram", "bipolar_basis_orthonormal", "bisph_basis_orthonormal", "order_consistent",
     "unit_field_maps_to_basis_vector", "cyl_axial_unit_field_maps_to_azimuthal",
     "order_consistent_cyl_partial", "order_consistent_op", "radial_field_maps_to_position",
     "products_invariant3", "products_invariant_polar", "products_invariant_spherical",
     "products_invariant_cylindrical", "products_contract_adjacent_indices",
-    "conversion_commutes_with_divergence_poly_polar", "conversion_commutes_with_divergence_poly_spherical",
-    "cyl_op_conversion_commutes_with_divergence", "conversion_commutes_with_gradient_poly",
+    # conversion commutes with divergence / gradient: arbitrary differentiable fields (K = R) ...
+    "polar_conversion_commutes_with_divergence_real", "polar_conversion_commutes_with_gradient_real",
+    "spherical_conversion_commutes_with_divergence_real", "spherical_conversion_commutes_with_gradient_real",
+    "cyl_op_conversion_commutes_with_divergence_real", "cyl_op_conversion_commutes_with_gradient_real",
+    "cyl_conversion_divergence_real",
+    # ... and the algebraic form for the sub-class r P(r^2) (named _partial)
+    "conversion_commutes_with_divergence_poly_polar_partial", "conversion_commutes_with_divergence_poly_spherical_partial",
+    "cyl_op_conversion_commutes_with_divergence_partial", "conversion_commutes_with_gradient_poly_partial",
     "from_expression_getitem",
 ]
 RULE = ("legs: coordsys (5 curvilinear coordinate systems + Cartesian 1-3d at random points, batches and "
@@ -43,7 +49,9 @@ RULE = ("legs: coordsys (5 curvilinear coordinate systems + Cartesian 1-3d at ra
         "(VectorField.interpolate_to_grid to random Cartesian boxes inside polar/spherical/cylindrical grids "
         "with and without hole: uniform unit fields of every axis, radial, position, rigid rotation, random "
         "affine and quadratic fields; built from expressions or from data; source semantics and JIT), commute "
-        "(conversion vs divergence / gradient on polynomial fields, operator order probes).  A case is "
+        "(conversion vs divergence / gradient on polynomial fields whose coefficients are redrawn until every wrong "
+        "reading of the component order changes the continuum result by > 3 x the tolerance; operator order probes "
+        "for divergence, gradient, vector gradient, vector Laplacian and tensor divergence).  A case is "
         "distinct by (leg, system or grid spec, inputs) and non-trivial if a permutation or sign change of "
         "components/rows would change the expected result (non-zero, pairwise different components; "
         "points off the axes); malformed cases never count as non-trivial")
@@ -56,8 +64,11 @@ ASSUMPTIONS = [
     "interpolation (C16) is not modelled here: the model converts the grid-basis values the real interpolator "
     "returned; the monitor compares with the analytic field within the proven bound of linear interpolation "
     "(dx^2/8 |f''|), exact for affine fields",
-    "conversion-vs-differentiation is checked within a discretisation tolerance (8 % of the field scale; "
-    "measured errors on this tree are below 3 %, a wrong component order changes the result by O(100 %))",
+    "conversion-vs-differentiation is checked within a discretisation tolerance COMMUTE_TOL * S + COMMUTE_ABS * "
+    "H2 * D3 (S, D3: sizes of the first and third derivatives of the Cartesian components of the field, all "
+    "components; H2 = max dx^2 + dr^2 + dz^2); measured on the unchanged tree over 12,000 generated cases: "
+    "largest deviation 0.28 of the tolerance; the generator redraws coefficients until every wrong reading "
+    "of the component order deviates by more than 3 x the tolerance",
     "Tensor2Field.interpolate_to_grid raises NotImplementedError in py-pde: tensor conversion exists only in "
     "the model (B^T T B); the harness checks that the error class stays as it is",
 ]
@@ -1974,7 +1985,7 @@ def run(ctx):
     timed("order", leg_order, ctx, P, rng, ctx.budget(40, 400))
     timed("fields", leg_fields, ctx, P, rng, ctx.budget(60, 2000))
     timed("subprocess legs (convert, commute, products; S and J)", leg_subprocess, ctx, P, rng,
-          ctx.budget(160, 12000), ctx.budget(60, 3000), ctx.budget(6, 96))
+          ctx.budget(160, 12000), ctx.budget(240, 3000), ctx.budget(6, 96))
     timed("model driver", P.run)
     ctx.extra["timing_s"] = timing
 
